@@ -14,7 +14,7 @@ from common import Rng
 import itertools
 
 ROLES = ["ebgp", "rs", "ibgp", "rr", "confed"]
-RIDS = [1, 2, 16843009]
+RIDS = [1, 2, 16843009, 3232235777]          # incl. a router-id >= 2^31 (192.168.1.1)
 
 
 def seg(t, n, asn=65000):
@@ -25,20 +25,25 @@ AS_PATHS = [
     "-", "x", "x" + seg(2, 1), "x" + seg(2, 2), "x" + seg(2, 2, 65001), "x" + seg(2, 3), "x" + seg(1, 3),
     "x" + seg(3, 2) + seg(2, 1), "x" + seg(2, 1) + seg(1, 2), "x" + seg(4, 2) + seg(2, 2), "x" + seg(2, 1) + seg(2, 1),
 ]
-LONG_PATHS = ["x" + seg(2, 255) + seg(2, 45), "x" + seg(2, 255), "x" + seg(2, 255) + seg(2, 1), "x" + seg(2, 200) + seg(1, 9) + seg(2, 56)]
+LONG_PATHS = ["x" + seg(2, 255) + seg(2, 45), "x" + seg(2, 255), "x" + seg(2, 255) + seg(2, 1), "x" + seg(2, 200) + seg(1, 9) + seg(2, 56),
+              "x" + seg(2, 255) * 4,                      # 1020 hops, 4088 bytes: the classic 4096-byte message limit
+              "x" + seg(2, 255) * 3 + seg(2, 254)]        # 1019 hops: one less
+HUGE_PATH = "x" + seg(2, 255) * 63 + seg(2, 250)         # 16315 hops, 65400 bytes: extended-message limit (thorough only)
 COMMS = ["-", "-", "-", "xffff0006", "xffff0007", "x00010002", "x00010002ffff0006", "xffff0007ffff0006", "xffff00"]
-EXTS_T2 = ["-", "x0600000000000000", "x0600000000000001", "x0600000000000001", "x00020001000000010600000000000001", "x0002000100000001"]
+EXTS_T2 = ["-", "x0600000000000000", "x0600000000000001", "x0600000000000001", "x00020001000000010600000000000001", "x0002000100000001",
+           "x0601000000000009",                          # EVPN type 0x06 sub-type 0x01 (ESI label): NOT MAC mobility
+           "x06030000000000090600000000000000"]          # default-gateway (0x06/0x03) in front of mobility 0
 CLUSTERS = ["-", "-", "x01010101", "x0101010102020202"]
 
 
 def gen_attr(r, t2, long_ok):
-    lp = r.pick(["-", "90", "100", "100", "110"])
+    lp = r.pick(["-", "90", "100", "100", "110", "110", "65636", "4294967295"])   # 65636 = 2^16 + 100
     origin = r.pick(["-", "0", "0", "1", "2"])
     if long_ok and r.chance(1, 3):
         ap = r.pick(LONG_PATHS)
     else:
         ap = r.pick(AS_PATHS)
-    oid = r.pick(["-", "-", "-", "1", "2", "16843009"])
+    oid = r.pick(["-", "-", "-", "1", "2", "16843009", "3232235777"])
     cl = r.pick(CLUSTERS)
     comm = r.pick(COMMS)
     ext = r.pick(EXTS_T2) if t2 else r.pick(["-", "-", "-", "x0600000000000001"])
@@ -175,7 +180,8 @@ class Builder:
         elif kind in ("dstale", "dllgr", "dnollgr"):
             ctr = "-"
             cur = self.active.get((addr, fam))
-            if cur is not None and r.chance(1, 3) and sum(1 for s in self.srcs if s[0] == addr) == 1:
+            if (cur is not None and r.chance(1, 2) and self.srcs[cur][3] != "-"
+                    and sum(1 for s in self.srcs if s[0] == addr) == 1):
                 ctr = str(cur)
             self.ops.append("(%s %d %s %s)" % (kind, addr, fam, ctr))
         elif kind == "nhv":
@@ -240,6 +246,73 @@ def gen_history(r, limits=False, deferral=False):
     return b.line()
 
 
+def gen_alloc(r):
+    """IdAllocator: ~130 prefixes of one peer (ids cross the 64-bit word boundaries), removals around the
+    boundaries, re-insertions (lowest free id), a few paths of a second peer; shard index from the case."""
+    shard = r.pick([0, 1, 3, 200, 254])
+    n = r.pick([66, 70, 129, 131])
+    srcs = "(s 1 1 ebgp -) (s 2 2 ebgp -)"
+    attrs = "(a 100 0 - - - - -) (a 90 0 - - - - -)"
+    ops = []
+    order = list(range(1, n + 1))
+    for k in order:
+        ops.append("(ins 0 v4 (v %d) 0 1 0 %s f)" % (k, "t" if r.chance(1, 12) else "f"))
+    gone = []
+    for _ in range(3 + r.below(8)):
+        k = r.pick([1, 2, 62, 63, 64, 65, 66, 67, 127, 128, 129, 130, n, n - 1, 1 + r.below(n)])
+        if 1 <= k <= n and k not in gone:
+            gone.append(k)
+            ops.append("(rm 0 v4 (v %d) 0)" % k)
+    r2 = list(gone)
+    for k in r2[: 1 + r.below(len(r2))]:
+        ops.append("(ins %d v4 (v %d) 0 2 1 f f)" % (r.pick([0, 1]), 200 - (k % 50)))
+    if r.chance(1, 2):
+        ops.append("(drop 1 v4)")
+        for k in range(1, 4):
+            ops.append("(ins 0 v4 (v %d) 0 1 0 f f)" % (210 + k))
+    return "(case (srcs %s) (attrs %s) (ops %s) (shard %d))" % (srcs, attrs, " ".join(ops), shard)
+
+
+def gen_gr(r, limits):
+    """the graceful-restart helper sequence: session 1 announces, goes down (restale), session 2 of the same
+    peer re-announces part of it (and something new), End-of-RIB purge (dstale -), later withdrawals; with LLGR variant"""
+    fam = r.pick(["v4", "v4", "ev"])
+    lim = str(r.pick([2, 3, 4, 6])) if limits else "-"
+    srcs = ["(s 1 1 ebgp %s)" % lim, "(s 1 1 ebgp %s)" % lim, "(s 2 2 %s -)" % r.pick(["ebgp", "ibgp", "rs"])]
+    attrs = gen_attr_pool(r, 3 + r.below(3), fam == "ev", False)
+    nets = ["(%s %d)" % ("m" if fam == "ev" else "v", k) for k in range(1, 2 + r.below(4) + 1)]
+    ops = []
+    def ins(s, net):
+        ops.append("(ins %d %s %s %d %s %d %s f)" % (s, fam, net, r.pick([0, 0, 1]), r.pick(["1", "2"]), r.below(len(attrs)),
+                                                       "t" if r.chance(1, 8) else "f"))
+    for net in nets:
+        if r.chance(4, 5):
+            ins(0, net)
+        if r.chance(1, 2):
+            ins(2, net)
+    llgr = r.chance(1, 3)
+    ops.append("(restale 1 %s)" % fam)
+    if llgr:
+        ops.append("(restale-llgr 1 %s)" % fam)
+        ops.append("(dnollgr 1 %s -)" % fam)
+    for net in nets:
+        if r.chance(2, 3):
+            ins(1, net)
+    if r.chance(1, 2):
+        ops.append("(rm 1 %s %s 0)" % (fam, r.pick(nets)))
+    ops.append("(dstale 1 %s -)" % fam)
+    if llgr:
+        ops.append("(dllgr 1 %s -)" % fam)
+    for _ in range(r.below(4)):
+        if r.chance(1, 2):
+            ops.append("(rm 1 %s %s %d)" % (fam, r.pick(nets), r.pick([0, 1])))
+        else:
+            ins(1, r.pick(nets))
+    if r.chance(1, 3):
+        ops.append("(drop 1 %s)" % fam)
+    return "(case (srcs %s) (attrs %s) (ops %s))" % (" ".join(srcs), " ".join(attrs), " ".join(ops))
+
+
 def gen_perms(r):
     """all arrival orders of one 5-path set (thorough tier)"""
     fam = r.pick(["v4", "ev"])
@@ -277,11 +350,11 @@ def mutate(r, line):
 def gen(seed, n, tier, focus):
     """focus: 'C02' | 'C06' | 'C15' shifts the stream weights."""
     r = Rng(seed * 1000003 + {"C02": 2, "C06": 6, "C15": 15}[focus])
-    w = {"C02": [("ranking", 10), ("history", 4), ("limits", 1), ("deferral", 1), ("malformed", 1)],
-         "C06": [("ranking", 3), ("history", 8), ("limits", 2), ("deferral", 4), ("malformed", 1)],
-         "C15": [("ranking", 2), ("history", 6), ("limits", 9), ("deferral", 1), ("malformed", 1)]}[focus]
+    w = {"C02": [("ranking", 20), ("history", 8), ("limits", 2), ("deferral", 2), ("malformed", 2), ("gr", 4), ("alloc", 1)],
+         "C06": [("ranking", 6), ("history", 16), ("limits", 4), ("deferral", 8), ("malformed", 2), ("gr", 6), ("alloc", 2)],
+         "C15": [("ranking", 4), ("history", 12), ("limits", 18), ("deferral", 2), ("malformed", 2), ("gr", 10), ("alloc", 1)]}[focus]
     out = []
-    nlong = 0
+    nalloc = 0
     while len(out) < n:
         k = r.weighted(w)
         if k == "ranking":
@@ -293,9 +366,19 @@ def gen(seed, n, tier, focus):
             out.append(gen_history(r, limits=True))
         elif k == "deferral":
             out.append(gen_history(r, deferral=True))
+        elif k == "gr":
+            out.append(gen_gr(r, limits=r.chance(2, 3)))
+        elif k == "alloc":
+            # big cases (130 steps x 130 destinations per dump): a fixed number per run
+            if nalloc < 24:
+                out.append(gen_alloc(r))
+                nalloc += 1
         else:
             out.append(mutate(r, gen_history(r, limits=r.chance(1, 2))))
     if tier == "thorough" and focus == "C02":
         for _ in range(max(1, n // 6000)):
             out += gen_perms(r)
+        # AS_PATHs at the extended-message limit (65400 bytes) against a short path
+        out.append("(case (srcs (s 1 1 ebgp -) (s 2 2 ebgp -)) (attrs (a - 0 %s - - - -) (a - 0 %s - - - -)) "
+                   "(ops (ins 0 v4 (v 1) 0 1 0 f f) (ins 1 v4 (v 1) 0 2 1 f f) (restale 1 v4)))" % (HUGE_PATH, LONG_PATHS[4]))
     return out
